@@ -184,7 +184,10 @@ void traceRecord(Ctx& c, const char* fn, int which, const ProjectOptions& o, con
     L.i(nEv);
     for (auto& e : g_trace) if (e.which == which) { L.i(e.event).i(e.iter).i((long long)e.v.size()); for (double x : e.v) L.d(x); }
     L.emit();
-    vh::Line O = vh::O(fn); putOutcome(O, r, true); O.d(r.normOut); O.emit();
+    // the model's `restored` is "saved/entry state held AND normalizeQuaternions not run" (whether normalising an already
+    // normalised quaternion changes bits is not modelled): report the observed flag in the same sense
+    Outcome rt = r; for (auto& e : g_trace) if (e.which == which && (e.event == 3 || e.event == 4)) rt.restored = false;
+    vh::Line O = vh::O(fn); putOutcome(O, rt, true); O.d(rt.normOut); O.emit();
     vh::D(std::string(fn) + ".traced");
 }
 
@@ -712,7 +715,7 @@ void minnormNRecord(Ctx& c, Model& M, const State& s0, const Matrix& Pq, const s
     L.emit();
     std::printf("T 1e-8 1e-10\n");
     vh::Line O = vh::O("minnormN"); for (int j = 0; j < nq; ++j) O.d(dq[j]); O.emit();
-    vh::D("minnormN.m" + std::to_string(m) + (nf != nq ? ".prescribed" : "") + (nq != nu ? ".quaternion" : ".euler"));
+    vh::D("minnormN.m" + std::to_string(m) + (nf != nq ? ".someQNotFree" : ".allQFree") + (nq != nu ? ".nqNeNu" : ".nqEqNu"));
     vh::P("minnorm_kkt", "projectQ.linearN.minnorm_kkt", res / ds, 1e-8);
     vh::P("minnorm_solves", "projectQ.linearN.minnorm_solves", solv / std::max(bs, 1e-3), 1e-8);
 }
@@ -737,8 +740,7 @@ void linearNCase(Ctx& c, vh::Rng& g) {
         for (int k = quat ? 4 : 0; k < nqb; ++k) cand.push_back({b, k});
     }
     if (cand.empty()) return;
-    // constraints have to be added before realizeTopology: rebuild is not possible, so pick indices valid in BOTH modes:
-    // the candidates above were computed on a throw-away topology; add the constraints now and realize again.
+    // (the candidates were computed on a first realizeTopology; the constraints are added now and the topology realized again)
     const int nC = 1 + g.below(3);
     for (int i = 0; i < nC; ++i) {
         if (g.coin()) { QC q = cand[g.below((int)cand.size())]; Constraint::ConstantCoordinate(M.bodies[q.body], MobilizerQIndex(q.k), g.range(-0.5, 0.5)); }
